@@ -680,6 +680,8 @@ pub fn run(_tier: Tier) -> Outcome {
         "distinct_nontrivial": refused,
         "rule": "for each instruction a golden call (asserted to succeed from its prepared state); then every cell of instruction x 12 signer identities, every cell of (balance-changing instruction) x {frozen, in-receivership, in-flash-loan, disabled} x 12 signers, and every cell of instruction x account slot x substitute (foreign group's group/bank/account/staked settings, another bank's vaults / authorities / oracle, other-kind vault, look-alike PDA with identical bytes, wrong owner program, wrong discriminator, another program, another mint); a cell outside the role table of the statement must be refused; a forged substitute accepted with the golden outcome is re-presented with zeroed data to tell an ignored slot from a read one; plus every instruction x {normal, frozen subject} with the foreign group in the group slot signed by the foreign group's role holders, and marginfi_group_configure rotating each of the seven roles to a fresh key, the zero key and every other role's key (alone and together with a neighbouring role), checked on the stored roles and on the old holder's instruction; distinct_nontrivial = refused cells",
         "instructions": gs.len(),
+        "golden_calls": gs.iter().map(|g| g.name).collect::<Vec<_>>(),
+        "program_instructions_without_golden_call": instructions_without_golden(&gs),
         "golden_calls_not_exercised": st.not_exercised,
         "slots_unprotected_by_rule": st.unprotected,
         "slots_ignored_by_program": st.ignored,
@@ -700,4 +702,32 @@ pub fn replay(v: &serde_json::Value) -> Vec<crate::mc::Violation> {
     let o = run(Tier::Quick);
     let g = v["golden"].as_str().unwrap_or("");
     o.found.into_iter().filter(|f| f.sig.starts_with(g)).map(|f| crate::mc::Violation { clause: f.clause, detail: f.detail }).collect()
+}
+
+
+/// The program's instruction list, read from the source of `#[program] pub mod marginfi` at build time, minus
+/// the instructions that occur in some golden call (by full name, or by the short names used inside bracket
+/// goldens). What remains is reported in the evidence: instructions the matrix does not drive.
+fn instructions_without_golden(gs: &[crate::golden::Golden]) -> Vec<String> {
+    const LIB: &str = include_str!("/repo/programs/marginfi/src/lib.rs");
+    let body = LIB.split("pub mod marginfi {").nth(1).unwrap_or("");
+    let mut all: Vec<String> = vec![];
+    for line in body.lines() {
+        let t = line.trim_start();
+        if let Some(rest) = t.strip_prefix("pub fn ") {
+            if let Some(name) = rest.split(|c: char| c == '(' || c == '<').next() {
+                all.push(name.trim().to_string());
+            }
+        }
+    }
+    let mut driven: std::collections::BTreeSet<String> = Default::default();
+    for g in gs {
+        for part in g.name.split('+') {
+            let p = part.split('(').next().unwrap_or("").trim().to_string();
+            for cand in [p.clone(), format!("lending_account_{p}"), format!("lending_pool_{p}")] {
+                driven.insert(cand);
+            }
+        }
+    }
+    all.into_iter().filter(|n| !driven.contains(n)).collect()
 }
